@@ -514,8 +514,13 @@ def run(ctx):
         return [n.value for n in own_nodes(s.node) if isinstance(n, (ast.Assign, ast.AnnAssign)) and getattr(n, "value", None) is not None
                 and any(isinstance(t, ast.Name) and t.id == name for t in (n.targets if isinstance(n, ast.Assign) else [n.target]))]
 
-    def from_inputs(name):
-        return any(isinstance(x, ast.Name) and x.id == inputs_p for d in defs_of(name) for x in ast.walk(d))
+    def from_inputs(name, depth=0):
+        # built from the inputs parameter, directly or through locals that are (`inputs_set = frozenset(inputs)`; `visited = set(inputs_set)`)
+        for d in defs_of(name):
+            for x in ast.walk(d):
+                if isinstance(x, ast.Name) and (x.id == inputs_p or (x.id != name and depth < 3 and from_inputs(x.id, depth + 1))):
+                    return True
+        return False
 
     # the visited set: the name tested by `if <value> in <V>: continue` inside the traversal loop
     ok = False
